@@ -149,6 +149,9 @@ mutant("c10_center_with_median", "C10", "models/riemanian_manifold.py",
        "        mean_xi = torch.mean(state[\"xi\"])\n        state[\"xi\"] = state[\"xi\"] - mean_xi\n        state[\"log_v0\"]",
        "        mean_xi = torch.median(state[\"xi\"])\n        state[\"xi\"] = state[\"xi\"] - mean_xi\n        state[\"log_v0\"]")
 # ----------------------------------------------------------------------------- C19
+mutant("c19_samplers_never_told_the_temperature", "C19", "algo/fit/mcmc_saem.py",
+       "            self.samplers[variable].sample(state, temperature_inv=self.temperature_inv)",
+       "            self.samplers[variable].sample(state, temperature_inv=1.0)")
 mutant("c19_period_wrong_divisor", "C19", "algo/algo_with_annealing.py",
        "        self._annealing_period = self.algo_parameters[\"annealing\"][\"n_iter\"] // (\n            self.algo_parameters[\"annealing\"][\"n_plateau\"] - 1\n        )",
        "        self._annealing_period = max(1, self.algo_parameters[\"annealing\"][\"n_iter\"] // (\n            self.algo_parameters[\"annealing\"][\"n_plateau\"] + 1\n        ))")
